@@ -107,6 +107,13 @@ def explore(res, rng, n):
         if rng.random() < 0.4:
             rows += [(b * m + b // 2, 1) for m in range(0, 3)]
         arr = [[v * 2.0 ** -s, u / 2.0] for v, u in rows]
+        if rng.random() < 0.3:
+            # integer-typed [range, count] rows (Python ints or an int64 array) with a possibly fractional bin size
+            irows = [(v, u) for v, u in rows]
+            rows = [(v << s, 2 * u) for v, u in irows]
+            import numpy as np
+            arr = [[int(v), int(u)] for v, u in irows] if rng.random() < 0.5 else np.array([[int(v), int(u)] for v, u in irows], dtype=np.int64)
+            res.stat('agg_integer_typed_rows')
         out = call(utils.cycleCountingAggregation, arr, b * 2.0 ** -s)
         if isinstance(out, str):
             res.disagreements.append({'what': 'cycleCountingAggregation raised', 'input': rows, 'bin': b, 'impl': out})
